@@ -97,3 +97,9 @@ Record penv := mkpenv {
   check_dominates : region -> region -> bool;
   slack_zero : slackT; cone_alpha_eps : slackT; u_star_eps : slackT; epsilon_slack : slackT;
   conf : nat -> region }.
+
+(* data flow of evaluating() in the GP algorithms, as regenerated from the source: the designs offered to the
+   acquisition optimiser, which acquisition, whether evaluation is decoupled (per objective), and the accounting
+   flag (exactly the picked candidates are evaluated, counted, costed and stored) *)
+Inductive acq_kind := AcqMaxDiagonal | AcqSumVariance | AcqMaxVarianceDecoupled.
+Record eflow := mkeflow { ef_choices : list nat; ef_acq : acq_kind; ef_decoupled : bool; ef_accounting : bool }.
